@@ -33,8 +33,11 @@ def snapshot(interp, v):
     return v
 
 
-def verify_function(ct, label=None, params=None):
+def verify_function(ct, label=None, params=None, observe=None):
+    """observe: optional callback(interp, frame, ret, a) -> dict, evaluated at every normal path end; the
+    (facts, observation) pairs are returned in rep.summaries (symbolic summaries for relational lemmas)."""
     rep = FnReport(ct.qualname if label is None else "%s[%s]" % (ct.qualname, label))
+    rep.summaries = []
     t0 = time.time()
     try:
         m, node = repo.find(ct.qualname)
@@ -99,6 +102,8 @@ def verify_function(ct, label=None, params=None):
                     if iff:
                         c = when(a)
                         ctx.prove("%s/raises:%s:must" % (flabel, exc), z3.Not(c) if is_z3(c) else (not c), node, "raises")
+                if observe is not None:
+                    rep.summaries.append((list(ctx.facts), observe(interp, fr, ret, a), dict(args)))
                 for nm, e in ct._ensures:
                     for sub, f in named(_aslist(e(a, ret, interp)), nm + "#"):
                         nm2 = nm if sub.startswith(nm + "#") and len(_aslist(e(a, ret, interp))) == 1 else "%s:%s" % (nm, sub)
